@@ -106,6 +106,8 @@ def keep_corpus(d, pid, name):
             continue
         seen.add(r['check'])
         out = os.path.join(dst, f'{pid}-{r["check"]}-from-{name}.json')
+        if os.path.exists(out) or os.environ.get('VERIF_NO_SHRINK'):
+            continue  # keep the shrunk case saved earlier; unshrunk cases do not enter the corpus
         r['origin'] = f'shrunk case with which sub-check {r["check"]} exposed seeded change {name}'
         json.dump(r, open(out, 'w'), indent=1)
         ok = run(f'VERIF_EVIDENCE_DIR={d}/.ev {HERE}/check {pid} --replay {out}', cwd=HERE)
